@@ -5,7 +5,7 @@
 From Coq Require Import NArith Bool List Lia.
 From RS.Gen Require Import Prelude GenConsts.
 From RS.Model Require Import Field Tables Sched Kernels Spec.
-From RS.Proofs Require Import FieldFacts Ring FftSpec SchedEquiv.
+From RS.Proofs Require Import FieldFacts Ring FftSpec SchedEquiv Trunc FftTrunc.
 Import ListNotations.
 Local Open Scope N_scope.
 
@@ -136,6 +136,32 @@ Proof.
   rewrite Hc, Nat2N.inj_pow. reflexivity.
 Qed.
 Print Assumptions C15_fft_all_engines.
+
+(* ... truncated or not: every output below truncated_size is the value of the polynomial, for
+   every engine, size 2^k <= 2^16, truncation, aligned skew_delta and input *)
+Theorem C15_fft_truncated : forall e k q c trunc, (k <= 16)%nat ->
+  let size := 2 ^ N.of_nat k in let sd := q * size in
+  sd + size <= 65536 -> length c = Nat.pow 2 k -> Forall (fun x => x < 65536) c -> trunc <= size ->
+  forall i, N.of_nat i < trunc ->
+  nth i (fft sym_ops e size trunc sd c) 0 = lch k c (sd + N.of_nat i).
+Proof. exact fft_trunc_spec. Qed.
+Print Assumptions C15_fft_truncated.
+
+(* ifft within its contract (input zero from truncated_size on) interpolates: its result is the
+   LCH coefficient vector of the polynomial taking the given values at skew_delta + i *)
+Theorem C15_ifft_interpolates : forall e k q x trunc, (k <= 16)%nat ->
+  let size := 2 ^ N.of_nat k in let sd := q * size in
+  sd + size <= 65536 -> length x = Nat.pow 2 k -> Forall (fun x => x < 65536) x -> trunc <= size ->
+  (forall i, (i < length x)%nat -> trunc <= N.of_nat i -> nth_error x i = Some 0) ->
+  forall i, (i < Nat.pow 2 k)%nat ->
+  lch k (ifft sym_ops e size trunc sd x) (sd + N.of_nat i) = nth i x 0.
+Proof. exact ifft_interpolates. Qed.
+Print Assumptions C15_ifft_interpolates.
+
+Theorem C15_fft_ifft_inverse : forall e k sd l, (k <= 16)%nat -> N.of_nat (length l) = 2 ^ N.of_nat k ->
+  fft sym_ops e (2 ^ N.of_nat k) (2 ^ N.of_nat k) sd (ifft sym_ops e (2 ^ N.of_nat k) (2 ^ N.of_nat k) sd l) = l.
+Proof. exact fft_ifft_inverse. Qed.
+Print Assumptions C15_fft_ifft_inverse.
 
 (* ifft is the exact inverse of fft: every engine, every size 2^k <= 2^16, every skew_delta,
    every input *)
